@@ -234,6 +234,56 @@ def inline_at(prog, body, block):
     return mir.Body(raw, prog)
 
 
+def devirtualise_closure_calls(raws, facts):
+    """After a helper taking `impl FnOnce(..)` was inlined, the closure it was given is a local aggregate of the caller and
+    `FnOnce::call_once(move closure, (args,))` is a call of a known closure body: rewrite the callee to that body (same
+    argument convention: environment, argument tuple) so that interprocedural rules follow it. Only in bodies that received
+    an inlining; the call is left alone unless its first argument is exactly one closure aggregate."""
+    n = 0
+    cur = mir.Program(dict(facts, bodies=list(raws.values())))
+    for path, raw in raws.items():
+        if not any(b.get("term", {}).get("inlined") for b in raw["blocks"]):
+            continue
+        body = cur.by_path[path]
+        for b, blk in enumerate(raw["blocks"]):
+            t = blk["term"]
+            if t["k"] != "call":
+                continue
+            fr = op_fn(t["func"])
+            if fr is None and mir.op_place(t["func"]) is not None:
+                # call through a fn pointer that is a non-capturing closure of this body (`callbacks: fn(&X) -> &Y` bound to
+                # `|x| &x.field`): inline the closure body (its parameters are the call's arguments; no environment)
+                os_ = mir.origins(body, t["func"])
+                if len(os_) == 1:
+                    o = next(iter(os_))
+                    ag = None
+                    if o[0] == "agg" and len(o) == 3 and o[2] < len(raw["blocks"][o[1]]["stmts"]):
+                        ag = raw["blocks"][o[1]]["stmts"][o[2]]["rv"].get("agg")
+                    if ag and ag.get("kind") == "closure" and not ag.get("ops") and ag.get("closure") in raws \
+                            and raws[ag["closure"]]["arg_count"] == len(t["args"]) + 1 and len(raws[ag["closure"]]["blocks"]) < 40:
+                        t["func"] = {"const": {"fn": {"path": ag["closure"], "resolved": ag["closure"], "args": []}, "ty": "fn"}}
+                        t["args"] = [{"const": {"val": "()", "ty": "()"}}] + t["args"]
+                        inline_call(raw, b, copy.deepcopy(raws[ag["closure"]]))
+                        n += 1
+                continue
+            if fr is None or mir.tail2(fr["path"]) not in ("FnOnce::call_once", "FnMut::call_mut", "Fn::call") or not t["args"]:
+                continue
+            if fr.get("resolved") and "{closure" in fr["resolved"]:
+                continue
+            os_ = mir.origins(body, t["args"][0])
+            if len(os_) != 1:
+                continue
+            o = next(iter(os_))
+            if o[0] != "agg" or len(o) != 3:
+                continue
+            ag = raw["blocks"][o[1]]["stmts"][o[2]]["rv"].get("agg") if o[2] < len(raw["blocks"][o[1]]["stmts"]) else None
+            if not ag or ag.get("kind") != "closure" or ag.get("closure") not in raws:
+                continue
+            t["func"] = {"const": {"fn": {"path": ag["closure"], "resolved": ag["closure"], "args": [], "devirtualised": fr["path"]}, "ty": "fn"}}
+            n += 1
+    return n
+
+
 def split_arms(raw, max_blocks=1500):
     """Arm splitting (a semantics-preserving normalisation): if the body starts by matching on the variant of a by-value
     enum parameter, everything reachable from each arm is copied per arm, with the locals assigned inside the copy renamed
@@ -608,6 +658,7 @@ def inlined_facts(facts, vocab=None):
             break
     sigs = load_sigs()
     info["unbundled"] = unbundle_params(raws, facts, sigs) if sigs else []
+    info["devirtualised"] = devirtualise_closure_calls(raws, facts)
     # separate the paths that the helpers' several returns merged (only in bodies that received an inlining)
     for path in list(raws):
         if any(b.get("term", {}).get("inlined") for b in raws[path]["blocks"]):
@@ -831,8 +882,6 @@ def thread_variants(raw):
                 work.append((tb, f2))
             outs.append((s[0], nodes[kk]) + tuple(s[3:]))
         edges[nid] = outs
-    if len(nodes) == len([b for b in range(len(blocks))]) and all(len(v) for v in [1]):
-        pass
     # rebuild
     new_blocks = []
     for nid, (b, facts) in enumerate(order):
